@@ -185,6 +185,9 @@ static void h_op(void)
   } else if (!strcmp(op, "hext")) {
     int v = -7; int st = esl_heap_IExtractTop(HP, &v);
     h_out("%s %d", h_status(st), v);
+  } else if (!strcmp(op, "hpop")) {          /* "to simply delete the topmost value, pass NULL for opt_val" */
+    int st = esl_heap_IExtractTop(HP, NULL);
+    h_out("%s %d", h_status(st), esl_heap_GetCount(HP));
   } else if (!strcmp(op, "hdrain")) {
     int v, first = 1; ob_reset();
     while (esl_heap_IExtractTop(HP, &v) == eslOK) { ob_int(v, first); first = 0; }
